@@ -10,7 +10,7 @@ OWN = {
     "C20": {"jc.work"},
 }
 KINDS = {
-    "C09": '{"vv", "vr"}',
+    "C09": '{"vv", "vr", "vrseq"}',
     "C12": '{"inv", "mem", "vv", "vr", "stk"}',
     "C03": '{"vv", "vr", "mem", "inv", "stk"}',
     "C20": '{"vrbig", "mem"}',
